@@ -390,6 +390,24 @@ def recognise_global_memo(model: Model, func: str) -> Optional[List[str]]:
     return problems
 
 
+def deep_store_is_rmw(model: Model, sw: "SharedWrite") -> bool:
+    """A component store deep inside a shared structure is certain data modification when the new value is computed from the
+    old one: `v[0] = v[0] + d`, or an in-place transformation `f(x, x)` (the written parameter aliases a read one) on the way."""
+    for kind, line, _text in sw.records:
+        if kind.startswith("subscript-store") and store_is_rmw(model, sw.origin_func, line):
+            return True
+    for cf, cl in sw.chain:
+        cfi = model.funcs.get(cf)
+        if cfi is None:
+            continue
+        for n in ast.walk(cfi.node):
+            if isinstance(n, ast.Call) and getattr(n, "lineno", -1) == cl:
+                texts = [core.src(a) for a in n.args if isinstance(a, (ast.Name, ast.Attribute, ast.Subscript))]
+                if len(texts) != len(set(texts)):
+                    return True
+    return False
+
+
 def history_definite(model: Model, sw: "SharedWrite") -> bool:
     """Is this write certain to make persistent data depend on the calls made so far?  Read-modify-write of the shared
     object (augmented stores, in-place transformations, reordering) or overwriting components of a persistent object."""
@@ -401,7 +419,9 @@ def history_definite(model: Model, sw: "SharedWrite") -> bool:
             return True
         if base in ("method:sort", "method:reverse", "method:insert", "method:extend"):
             return True
-        if base == "subscript-store:const":
+        if base == "subscript-store:const" and (sw.depth <= 1 or deep_store_is_rmw(model, sw)):
+            # (deeper inside a shared structure the abstraction no longer tells a work vector that is written before it is read
+            #  from a component of persistent data: not positive evidence)
             return True
         if base == "subscript-store:key" and store_is_rmw(model, sw.origin_func, sw.origin_line):
             return True
